@@ -133,10 +133,35 @@ example : (run [(.newPolicy [1,0,0,0,0,0], 0), (.compare, 3), (.approveFailed, 0
 example : (runC [(.newPolicy [1,0,0,0,0,0], 0), (.approveOk, 3), (.approveFailed, 0),
     (.newPolicy [1,0,0,0,0,0], 2), (.approveFailed, 0), (.bzip 1, 0)] ({}, true)).2 = true := by decide
 
+/-! ## approve-all terminates -/
+
+/-- A successful approve takes the device off the list, after EVERY history (so approve-all, which
+approves each printed device once, ends with an empty list if every approve succeeds). -/
+theorem approve_ok_unlists (es : List (Event × Nat)) (dt : Nat) (hcur : (run es).cur ≠ 0) :
+    (run (es ++ [(.approveOk, dt)])).listed = false := by
+  have hinv : Inv (run es) := inv_run es {} inv_init
+  have ht := hinv.times.ct_le
+  simp only [run, List.foldl_append, List.foldl_cons, List.foldl_nil]
+  change (step (run es) (.approveOk, dt)).listed = false
+  simp only [step, World.cur] at hcur ⊢
+  simp only [World.cur, hcur, if_false, World.listed, listed, devicePolicy, setApprove, Bool.false_and,
+    Bool.false_eq_true, if_false]
+  have hlt : ¬ ((run es).clock + dt + 1 < (run es).st.compare.time) := by omega
+  simp [hlt, hcur]
+
+/-- … and stays off the list while nothing but compares that find no difference, compressions and
+removals of OTHER policies happen (non-vacuity example of `missing_omits_partial` with all four
+hypotheses on a history with two policies, an approve, a compare and a compression). -/
+example :
+    let es : List (Event × Nat) := [(.newPolicy [1,0,0,0,0,0], 0), (.approveOk, 2), (.compare, 0),
+      (.newPolicy [1,0,0,0,0,0], 1), (.bzip 1, 0)]
+    (runC es ({}, true)).2 = true ∧ (run es).obs = .carries [1,0,0,0,0,0] 1 ∧
+      [1,0,0,0,0,0] = (run es).curCode ∧ 1 ∉ (run es).removed ∧ (run es).listed = false := by decide
+
 def obligations : List Lean.Name := [
   ``missing_sound, ``missing_sound_removed_counterexample,
   ``missing_omits_partial, ``missing_omits_needs_clean,
   ``failed_approve_keeps_ok_record, ``failed_approve_after_revert_listed,
-  ``inv_step, ``j_step]
+  ``inv_step, ``j_step, ``approve_ok_unlists]
 
 end NA.C13
